@@ -445,6 +445,11 @@ func compiledInstructionsToJsonParsed(
 
 	parsedInstructionJSON, err := instrParams.ParseInstruction()
 	if err != nil || parsedInstructionJSON == nil || !strings.HasPrefix(strings.TrimSpace(string(parsedInstructionJSON)), "{") {
+		for _, v := range inst.Accounts {
+			if int(v) >= len(tx.Message.AccountKeys) {
+				return nil, fmt.Errorf("instruction references account index %d, the message has %d account keys", v, len(tx.Message.AccountKeys))
+			}
+		}
 		nonParseadInstructionJSON := map[string]any{
 			"accounts": func() []string {
 				out := make([]string, len(inst.Accounts))
